@@ -22,6 +22,15 @@ def falsy_default(model, payload):
             return {"reproduced": True, "detail": "default %r: %s %s" % (d, type(e).__name__, e)}
         if not (x == y == z):
             return {"reproduced": True, "detail": "def f(a, b=%r): f(1) / f(1, %r) / f(1, b=%r) give argument hashes %s / %s / %s" % (d, d, d, x["b"][:8], y["b"][:8], z["b"][:8]), "inputs": {"default": repr(d)}}
+    # a keyword argument bound to None must hash None, not the parameter's default
+    def g(a, b=3):
+        return a
+
+    x = get_arg_ctx(g, (1,), {"b": None}).named_args
+    y = get_arg_ctx(g, (1, None), {}).named_args
+    z = get_arg_ctx(g, (1,), {}).named_args
+    if x != y or x == z:
+        return {"reproduced": True, "detail": "def g(a, b=3): g(1, b=None) hashes b as %s, g(1, None) as %s, g(1) as %s" % (x["b"][:8], y["b"][:8], z["b"][:8]), "inputs": {"call": "g(1, b=None)"}}
     return {"reproduced": False, "detail": "all spellings agree for defaults %r" % (FALSY,)}
 
 
